@@ -501,6 +501,11 @@ def enumerate_cases(tier, seed):
                 for steps in (1, 2):
                     cases.append({"part": "model", "det": kind, "file": fname, "pos": pos, "steps": steps,
                                   "ext": ".asdf"})
+                # ... and in a non-destructive exposure of 3 readouts (the pixel content is kept between the steps: the
+                # file's pixel content must still replace it at every step)
+                if pos in ("middle", "last"):
+                    cases.append({"part": "model", "det": kind, "file": fname, "pos": pos, "steps": 3, "nd": True,
+                                  "ext": ".asdf"})
     for kind in mk.DET_TYPES:
         for fname in ("F2d", "F3d", "Fgrp"):
             for steps in (1, 2, 3):
@@ -524,7 +529,7 @@ def expected_size(tier, seed):
             m = n_combos_near(kind, k)
         n += m * len(formats())
     return n + len(mk.DET_TYPES) * len(MODEL_FILES) * len(POSITIONS) * 2 + (len(mk.DET_TYPES) if tier == "thorough" else 2) + 1 \
-        + len(mk.DET_TYPES) * 3 * 3
+        + len(mk.DET_TYPES) * 3 * 3 + len(mk.DET_TYPES) * len(MODEL_FILES) * len([p for p in POSITIONS if p in ("middle", "last")])
 
 
 # ------------------------------------------------------------------ part roundtrip
@@ -665,7 +670,8 @@ def run_model(case):
     fill_combo = combo if "_fill" not in spec else {a: v for a, v in MODEL_FILES[spec["_fill"]].items() if a in axes_for(kind)}
     fill_combo = {a: v for a, v in fill_combo.items() if a != "_alias"}
     viol = []
-    tag = f"{kind} file={fname} load_detector at position {pos} of the pipeline, {steps} readout(s)"
+    tag = (f"{kind} file={fname} load_detector at position {pos} of the pipeline, {steps} "
+           f"{'non-destructive ' if case.get('nd') else ''}readout(s)")
 
     def bad(code, where, fields, what):
         viol.append(({"part": "model", "pos": pos, "code": code, "where": where, "fields": ",".join(sorted(fields))},
@@ -698,7 +704,8 @@ def run_model(case):
         del OBSERVED[:]
         times = [float(i + 1) for i in range(steps)]
         try:
-            result = pyxel.run_mode(mk.exposure(times), running, mk.pipeline(groups), with_inherited_coords=True)
+            result = pyxel.run_mode(mk.exposure(times, non_destructive=bool(case.get("nd"))), running, mk.pipeline(groups),
+                                    with_inherited_coords=True)
         except Exception as e:  # noqa: BLE001
             bad("run-failed", "run", ["-"], f"the run raised {type(e).__name__}: {str(e)[:300]}")
             return {"viol": viol, "sig": cfgx.sig([kind, fname, pos, steps]), "nontrivial": False}
@@ -760,7 +767,7 @@ def run_model(case):
                     f"e.g. {p0}: file {_short(a0)} != result {_short(b0)} (result nodes {sorted(got)})")
     finally:
         shutil.rmtree(d, ignore_errors=True)
-    return {"viol": viol, "sig": cfgx.sig([kind, fname, pos, steps]), "nontrivial": True, "n": 1,
+    return {"viol": viol, "sig": cfgx.sig([kind, fname, pos, steps, bool(case.get("nd"))]), "nontrivial": True, "n": 1,
             "outcome": {"violations": len(viol)}}
 
 
